@@ -324,6 +324,33 @@ func c11(c *core.Ctx) {
 					}
 				}
 				c.Check(bad == "", key, dc.Pos(), "decoded bytes are used only under err == nil of the same call", bad+": a request with an undecodable binary header value would reach the handler")
+				// ... and in the function that turns a whole header set into metadata, which headers get decoded is a
+				// matter of the "-bin" suffix alone: a name filter in front of the decode (skip what is "reserved")
+				// lets an undecodable value of a filtered name through unvalidated — and drops metadata on the way
+				if len(fn.Params) == 1 && core.TypeStr(fn.Params[0].Type()) == "net/http.Header" {
+					var extra []string
+					for _, ef := range core.DominatingFacts(dc) {
+						f := ef.Fact
+						if ex, ok := f.X.(*ssa.Extract); ok {
+							if _, isNext := ex.Tuple.(*ssa.Next); isNext {
+								continue // range over the map
+							}
+						}
+						if f.Op == token.LSS || f.Op == token.GEQ || f.Op == token.GTR || f.Op == token.LEQ {
+							continue // the inner loop over the values
+						}
+						if call, ok := f.X.(*ssa.Call); ok && f.Op == token.ILLEGAL {
+							ci := core.InfoOf(&call.Call)
+							if ci.Is("strings.HasSuffix") && !f.Neg {
+								continue
+							}
+							extra = append(extra, ci.Name)
+							continue
+						}
+						extra = append(extra, core.ValName(f.X))
+					}
+					c.Check(len(extra) == 0, core.FuncName(fn)+":decodes-every-bin-header", dc.Pos(), "whether a header value is base64-decoded depends on the -bin suffix of its name only", fmt.Sprintf("the decode of -bin header values is reached only under further conditions (%v): header names that fail them are skipped, so their values are never validated (a request with an undecodable one is dispatched) and never become metadata", extra))
+				}
 			}
 		}
 		if n < 2 {
